@@ -47,6 +47,12 @@ def _msm_true_keys(eng, universe):
             return ("const", key) if t == ("field", "identity") else None
         s2 = eng.symeval(f.qualname, override=ov)
         rets = [e for e in s2.effects if e.kind == "return" and e.handler is None]
+        if len(rets) > 1:
+            # single-exit form: one return per path; the path through the handler is taken exactly when the key is missing from the table
+            on_exc = [e for e in rets if any(c[0] == "exc-path" and p for c, p in e.guards)]
+            pick = [e for e in rets if e not in on_exc] if key in eng.tables.msgids else on_exc
+            if len(pick) == 1 and is_const(pick[0].term):
+                rets = pick
         if len(rets) == 1 and is_const(rets[0].term):
             res[key] = bool(rets[0].term[1])
         else:
